@@ -1,6 +1,6 @@
 (* Properties_C15.v — C15: parsing options do what they say.  Proofs: OptionFacts.v. *)
 From Coq Require Import String Lia List.
-From Econf Require Import Bytes BytesFacts OptionSpec CommentLoop LineBase OptionFacts Generated_facts.
+From Econf Require Import Bytes BytesFacts OptionSpec CommentLoop LineBase OptionFacts OptionLaws Generated_facts.
 Local Open Scope N_scope.
 
 (* an option string made of documented items (in any order, repeated or not)
@@ -11,6 +11,19 @@ Theorem C15_options_ok : forall items,
   new_with_options (Some (render_options items)) = (ECONF_SUCCESS, options_meaning items).
 Proof. exact options_ok. Qed.
 Print Assumptions C15_options_ok.
+
+(* "an item given twice acts as its last occurrence", outright (OptionLaws.v):
+   an earlier occurrence of an item that is given again later has no effect at
+   all - for the list-valued items too, whatever the lengths of the two lists -
+   and items of different kinds do not interfere *)
+Theorem C15_last_occurrence : forall pre mid post i j, same_kind i j = true ->
+  options_meaning (pre ++ i :: mid ++ j :: post) = options_meaning (pre ++ mid ++ j :: post).
+Proof. exact options_last_occurrence. Qed.
+Print Assumptions C15_last_occurrence.
+Theorem C15_kinds_independent : forall pre post i j, same_kind i j = false ->
+  options_meaning (pre ++ i :: j :: post) = options_meaning (pre ++ j :: i :: post).
+Proof. exact options_swap. Qed.
+Print Assumptions C15_kinds_independent.
 
 (* an item with an unknown (or misspelt) name is answered with option-not-found *)
 Theorem C15_options_unknown : forall texts,
